@@ -96,10 +96,17 @@ RedeclOptOf(s, e, o) == LET x == EntByName(s, e)
 (* is the attribute OPTIONAL in entity e? (a redeclaration on the way up may have made it required) *)
 EffOpt(s, e, o) == IF RedeclOptOf(s, e, o) = {} THEN AttrDecl(s, o).opt ELSE CHOOSE b \in RedeclOptOf(s, e, o) : TRUE
 EffTy(s, e, o) == IF RedeclOf(s, e, o) = {} THEN AttrDecl(s, o).ty ELSE CHOOSE t \in RedeclOf(s, e, o) : TRUE
+(* is the inherited attribute o redeclared as DERIVEd in e or between e and its owner? (its slot then holds `*`) *)
+RECURSIVE DerivedIn(_, _, _)
+DerivedIn(s, e, o) == LET x == EntByName(s, e) IN
+                      \/ \E i \in 1..Len(x.derive) : x.derive[i].name = "SELF\\" \o o.owner \o "." \o o.name
+                      \/ (e # o.owner /\ \E i \in 1..Len(x.supers) : DerivedIn(s, x.supers[i], o))
+Star == [k |-> "star"]
 (* parameters of a simple instance of entity e: AttrOrder; an OPTIONAL attribute is unset every third round *)
 Params(s, e, n) == LET o == AttrOrder(s, e) IN
   [j \in 1..Len(o) |-> LET a == AttrDecl(s, o[j]) IN
-                       IF EffOpt(s, e, o[j]) /\ (n + j + EntIndex(s, e)) % 3 = 0 THEN Null ELSE ValueOf(s, EffTy(s, e, o[j]), n + j + EntIndex(s, e), 0)]
+                       IF DerivedIn(s, e, o[j]) THEN Star
+                       ELSE IF EffOpt(s, e, o[j]) /\ (n + j + EntIndex(s, e)) % 3 = 0 THEN Null ELSE ValueOf(s, EffTy(s, e, o[j]), n + j + EntIndex(s, e), 0)]
 (* a required attribute of entity type can only be given when some instantiable entity of that type exists *)
 Conforming(s) == \A i \in 1..Len(s.ents) : \A j \in 1..Len(s.ents[i].attrs) :
                    LET a == s.ents[i].attrs[j] IN (a.ty.agg = "none" /\ IsEnt(s, a.ty.base) /\ ~a.opt) => HasTarget(s, a.ty.base)
@@ -132,7 +139,7 @@ Applicable(s, pop, cl, i, j) ==
   LET x == pop[i] IN
   IF j = 0 THEN cl \in {"few", "many", "unknown_kw", "unterminated_inst"} \/ (cl = "dup_id" /\ i > 1)
                 \/ (cl = "abstract_kw" /\ \E a \in 1..Len(s.ents) : s.ents[a].abstract)
-  ELSE /\ j \in 1..Len(x.params) /\ x.params[j].k # "null"
+  ELSE /\ j \in 1..Len(x.params) /\ x.params[j].k \notin {"null", "star"}
        /\ LET a == AttrAt(s, x.ent, j)
                kd == KindOfRef(s, a.ty)
            IN CASE cl = "wrongkind" -> kd \in Simple \cup {"enum", "entity", "aggr"} /\ kd # "NUMBER"
@@ -185,6 +192,7 @@ FaultCases(s, pop, n) == UNION {IF Places(s, pop, cl) = {} THEN {} ELSE
 (* refers to is marked deleted every second time (the properties leave a deleted but referenced instance open)   *)
 RECURSIVE RefsOf(_)
 RefsOf(v) == CASE v.k = "ref" -> {v.id}
+               [] v.k = "star" -> {}
                [] v.k = "typed" -> RefsOf(v.v)
                [] v.k = "list" -> UNION {RefsOf(v.items[i]) : i \in 1..Len(v.items)}
                [] OTHER -> {}
